@@ -5,12 +5,24 @@ written as Lean data to lean/PhreeqcVerif/Gen/StoreTables.lean:
     (read_input, tidy_model, initial_*, reactions, ..., run_as_cells, do_mixes, copy_entities, dump, delete_entities);
   * the kind orders inside set_use (order of the "not found" checks), copy_use, saver (+ which kinds are fanned out with
     Rxn_copies and which with a Rxn_copy loop), do_mixes, copy_entities (+ the loop variable type), delete_entities,
-    dump_ostream, list_components;
+    dump_ostream, list_components; what Rxn_copy / Rxn_copies do;
   * the option vectors of StorageBinList (DELETE), runner (RUN_CELLS) and dumper (DUMP) and the item each option case selects;
-  * the option names the generator writes (tools/gens/store.py DEL_NAME), so that the theorem "every written option resolves to
+    KEY_x -> kind wiring of USE / SAVE / COPY;
+  * the option names the generator writes (tools/gens/store.py), so that the theorem "every written option resolves to
     the intended item" is about the text that is really sent.
 
-Regex based over comment-stripped text; FAILS CLOSED (TranslatorError) when a shape is not recognised.
+The facts are read from the STRUCTURE of the code, not from its spelling: every function body is parsed into a statement
+tree (blocks, if/else, loops, switch with its case labels, simple statements) over comment- and preprocessor-stripped text;
+statement text is compared in a canonical form (no insignificant white space); before a fact is read
+  * local reference aliases `const T& x = expr;` are substituted into the statements that follow them,
+  * a call of a file-local helper (static function or template in the same file) is replaced by the helper's body with the
+    arguments substituted for the parameters (one level),
+  * enumerators / `static const int` of the file are replaced by their values in case labels and conditions,
+  * a `switch` is read as a set of (labels -> statements) groups, whatever their order,
+  * a guard `if (it == b.end()) …` directly after `b[k] = …; it = b.find(k);` is dropped: std::map::operator[] has just
+    created key k, so the condition is false (the one redundancy that is PROVED; any other extra statement makes the shape
+    comparison fail).
+FAILS CLOSED (TranslatorError) when what the code says is not what the model assumes or cannot be established.
 `extract(repo)` returns Python data, `generate(ctx)` writes the Lean file (only when its content changes)."""
 import re
 from pathlib import Path
@@ -25,29 +37,414 @@ class TranslatorError(Exception):
 MAPNAME = {"solution": "solution", "pp_assemblage": "pp", "exchange": "exchange", "surface": "surface",
            "ss_assemblage": "ss", "gas_phase": "gas", "kinetics": "kinetics", "mix": "mix", "reaction": "reaction",
            "temperature": "temperature", "pressure": "pressure", "cell": "cell"}
+ELEVEN = sorted(k for k in MAPNAME if k != "cell")
 
 
+# ------------------------------------------------------------------------------------------------ text level
 def strip_comments(src):
     src = re.sub(r"/\*.*?\*/", lambda m: "\n" * m.group(0).count("\n"), src, flags=re.S)
-    return re.sub(r"//[^\n]*", "", src)
+    src = re.sub(r"//[^\n]*", "", src)
+    # preprocessor lines (with continuations); both branches of a conditional stay in the text
+    return re.sub(r"(?m)^[ \t]*#(?:[^\n\\]|\\.|\\\n)*$", "", src)
 
 
-def body_of(src, header_re, what):
-    """text of the function whose header matches header_re (brace matching from the first '{' after the header)"""
-    m = re.search(header_re, src)
-    if not m:
-        raise TranslatorError(f"{what}: function header not found")
-    i = src.index("{", m.end())
-    depth, j = 0, i
-    while j < len(src):
-        if src[j] == "{":
+TOK = re.compile(r'"(?:[^"\\]|\\.)*"|\'(?:[^\'\\]|\\.)*\'|[A-Za-z_0-9]+|\S')
+
+
+def canon(s):
+    """canonical spelling: tokens joined without white space, except one blank between two word tokens"""
+    out, prev = [], ""
+    for t in TOK.findall(s):
+        if prev and re.match(r"\w", prev[-1]) and re.match(r"\w", t[0]):
+            out.append(" ")
+        out.append(t)
+        prev = t
+    return "".join(out)
+
+
+def scan(s, i, stop):
+    """index of the first char of `stop` at nesting depth 0 from i on (quotes and () [] {} respected)"""
+    depth = 0
+    n = len(s)
+    while i < n:
+        c = s[i]
+        if c in "\"'":
+            j = i + 1
+            while j < n and s[j] != c:
+                j += 2 if s[j] == "\\" else 1
+            i = j + 1
+            continue
+        if depth == 0 and c in stop:
+            return i
+        if c in "([{":
             depth += 1
-        elif src[j] == "}":
+        elif c in ")]}":
             depth -= 1
-            if depth == 0:
-                return src[i:j + 1]
-        j += 1
-    raise TranslatorError(f"{what}: unbalanced braces")
+            if depth < 0:
+                return i
+        i += 1
+    return n
+
+
+def skip_ws(s, i):
+    while i < len(s) and s[i].isspace():
+        i += 1
+    return i
+
+
+def parens(s, i, what):
+    i = skip_ws(s, i)
+    if i >= len(s) or s[i] != "(":
+        raise TranslatorError(f"{what}: '(' expected")
+    j = scan(s, i + 1, ")")
+    return s[i + 1:j], j + 1
+
+
+KW = re.compile(r"(if|for|while|switch|do|try|case|default|else)\b")
+
+
+def parse_stmt(s, i, what):
+    """one statement from s[i:] -> (node, next index). Nodes:
+    ("block", [n]) ("if", cond, then, else|None) ("loop", kw, header, body) ("switch", expr, body) ("label", text)
+    ("try", block, [handler blocks]) ("simple", text) — all texts canonical"""
+    i = skip_ws(s, i)
+    if s[i] == "{":
+        out, i = [], i + 1
+        while True:
+            i = skip_ws(s, i)
+            if i >= len(s):
+                raise TranslatorError(f"{what}: unbalanced braces")
+            if s[i] == "}":
+                return ("block", out), i + 1
+            n, i = parse_stmt(s, i, what)
+            if n is not None:
+                out.append(n)
+    m = KW.match(s, i)
+    kw = m.group(1) if m else None
+    if kw == "if":
+        cond, i = parens(s, m.end(), what)
+        then, i = parse_stmt(s, i, what)
+        j = skip_ws(s, i)
+        els = None
+        if re.match(r"else\b", s[j:j + 5]):
+            els, i = parse_stmt(s, j + 4, what)
+        return ("if", canon(cond), then, els), i
+    if kw in ("for", "while"):
+        hdr, i = parens(s, m.end(), what)
+        body, i = parse_stmt(s, i, what)
+        return ("loop", kw, canon(hdr), body), i
+    if kw == "switch":
+        e, i = parens(s, m.end(), what)
+        body, i = parse_stmt(s, i, what)
+        return ("switch", canon(e), body), i
+    if kw == "do":
+        body, i = parse_stmt(s, m.end(), what)
+        j = skip_ws(s, i)
+        cond, i = parens(s, j + 5, what)
+        return ("loop", "do", canon(cond), body), scan(s, i, ";") + 1
+    if kw == "try":
+        blk, i = parse_stmt(s, m.end(), what)
+        hs = []
+        while re.match(r"catch\b", s[skip_ws(s, i):skip_ws(s, i) + 6]):
+            _, i = parens(s, skip_ws(s, i) + 5, what)
+            h, i = parse_stmt(s, i, what)
+            hs.append(h)
+        return ("try", blk, hs), i
+    if kw in ("case", "default"):
+        j = m.end()
+        while True:                      # the ':' that is not part of '::'
+            j = scan(s, j, ":")
+            if s[j:j + 2] == "::":
+                j += 2
+                continue
+            break
+        return ("label", canon(s[m.end():j]) if kw == "case" else "default"), j + 1
+    if s[i] == ";":
+        return None, i + 1
+    j = scan(s, i, ";")
+    return ("simple", canon(s[i:j])), j + 1
+
+
+def function_def(src, name, what=None):
+    """(parameter text, body tree) of the DEFINITION of `name` in comment-stripped src"""
+    what = what or name
+    for m in re.finditer(r"\b" + re.escape(name) + r"\s*\(", src):
+        j = scan(src, m.end(), ")")
+        k = skip_ws(src, j + 1)
+        if src[k:k + 5] == "const":
+            k = skip_ws(src, k + 5)
+        if k < len(src) and src[k] == "{":
+            # not a call inside an expression: the previous non-blank token must not be an operator that makes it one
+            body, _ = parse_stmt(src, k, what)
+            return src[m.end():j], body
+    raise TranslatorError(f"{what}: definition not found")
+
+
+# ------------------------------------------------------------------------------------------------ tree level
+def stmts(node):
+    """statement list of a block (a single statement counts as a one-element block); nested plain blocks are flattened"""
+    if node is None:
+        return []
+    if node[0] != "block":
+        return [node]
+    out = []
+    for n in node[1]:
+        out += stmts(n) if n[0] == "block" else [n]
+    return out
+
+
+def walk(node):
+    """all nodes, preorder, in source order"""
+    if node is None:
+        return
+    yield node
+    k = node[0]
+    if k == "block":
+        for n in node[1]:
+            yield from walk(n)
+    elif k == "if":
+        yield from walk(node[2])
+        yield from walk(node[3])
+    elif k == "loop":
+        yield from walk(node[3])
+    elif k == "switch":
+        yield from walk(node[2])
+    elif k == "try":
+        yield from walk(node[1])
+        for h in node[2]:
+            yield from walk(h)
+
+
+def texts(node):
+    """canonical texts (conditions, headers, labels, simple statements) in source order"""
+    for n in walk(node):
+        if n[0] == "simple" or n[0] == "label":
+            yield n[1]
+        elif n[0] == "if":
+            yield n[1]
+        elif n[0] == "loop":
+            yield n[2]
+        elif n[0] == "switch":
+            yield n[1]
+
+
+def alltext(node):
+    return ";".join(texts(node))
+
+
+def mapnode(node, f):
+    """the tree with f applied to every text"""
+    if node is None:
+        return None
+    k = node[0]
+    if k == "block":
+        return ("block", [mapnode(n, f) for n in node[1]])
+    if k == "if":
+        return ("if", f(node[1]), mapnode(node[2], f), mapnode(node[3], f))
+    if k == "loop":
+        return ("loop", node[1], f(node[2]), mapnode(node[3], f))
+    if k == "switch":
+        return ("switch", f(node[1]), mapnode(node[2], f))
+    if k == "try":
+        return ("try", mapnode(node[1], f), [mapnode(h, f) for h in node[2]])
+    return (k, f(node[1]))
+
+
+def subst(node, table):
+    """word-wise substitution of identifiers by canonical expressions"""
+    if not table:
+        return node
+    rx = re.compile(r"(?<![\w.>])(" + "|".join(re.escape(k) for k in table) + r")\b")
+    return mapnode(node, lambda t: canon(rx.sub(lambda m: table[m.group(1)], t)))
+
+
+ALIAS = re.compile(r"^(?:const )?[\w:<>, ]*?&(\w+)=(.+)$")
+
+
+def resolve_aliases(node):
+    """`const T& x = expr;` -> x replaced by expr in the statements that follow in the same block"""
+    if node is None:
+        return None
+    k = node[0]
+    if k == "block":
+        out, rest = [], list(node[1])
+        while rest:
+            n = rest.pop(0)
+            m = ALIAS.match(n[1]) if n[0] == "simple" else None
+            if m and "(" not in n[1].split("=")[0]:
+                rest = [subst(x, {m.group(1): m.group(2)}) for x in rest]
+                continue
+            out.append(resolve_aliases(n))
+        return ("block", out)
+    if k == "if":
+        return ("if", node[1], resolve_aliases(node[2]), resolve_aliases(node[3]))
+    if k == "loop":
+        return ("loop", node[1], node[2], resolve_aliases(node[3]))
+    if k == "switch":
+        return ("switch", node[1], resolve_aliases(node[2]))
+    if k == "try":
+        return ("try", resolve_aliases(node[1]), [resolve_aliases(h) for h in node[2]])
+    return node
+
+
+def split_args(s, angles=False):
+    """top-level comma split; angles=True: commas inside template brackets <...> do not split (parameter lists)"""
+    if angles:
+        depth, t = 0, []
+        for c in s:
+            depth += (c == "<") - (c == ">")
+            t.append("\x00" if c == "," and depth > 0 else c)
+        return [a.replace("\x00", ",") for a in split_args("".join(t))]
+    out, i = [], 0
+    while i <= len(s):
+        j = scan(s, i, ",")
+        out.append(s[i:j])
+        i = j + 1
+    return [a for a in (x.strip() for x in out) if a]
+
+
+def inline_helpers(node, src, what):
+    """a statement that is just a call of a function defined in the same file as a non-member (static / template helper) is
+    replaced by that function's body, parameters replaced by the arguments (one level)"""
+    def helper(name):
+        for m in re.finditer(r"(?<![\w:.>])" + re.escape(name) + r"\s*\(", src):
+            j = scan(src, m.end(), ")")
+            k = skip_ws(src, j + 1)
+            if k < len(src) and src[k] == "{":
+                pre = src[max(0, m.start() - 200):m.start()]
+                if re.search(r"::\s*$", pre):
+                    return None
+                params = [re.findall(r"\w+", p)[-1] for p in split_args(src[m.end():j], angles=True)]
+                body, _ = parse_stmt(src, k, what)
+                return params, body
+        return None
+
+    def rec(n):
+        if n is None:
+            return None
+        k = n[0]
+        if k == "simple":
+            m = re.match(r"^(\w+)\((.*)\)$", n[1])
+            if m and not re.match(r"(return|if|for|while|switch)$", m.group(1)):
+                h = helper(m.group(1))
+                if h:
+                    params, body = h
+                    args = [canon(a) for a in split_args(m.group(2))]
+                    if len(args) == len(params):
+                        return subst(body, dict(zip(params, args)))
+            return n
+        if k == "block":
+            return ("block", [rec(x) for x in n[1]])
+        if k == "if":
+            return ("if", n[1], rec(n[2]), rec(n[3]))
+        if k == "loop":
+            return ("loop", n[1], n[2], rec(n[3]))
+        if k == "switch":
+            return ("switch", n[1], rec(n[2]))
+        if k == "try":
+            return ("try", rec(n[1]), [rec(h) for h in n[2]])
+        return n
+    return rec(node)
+
+
+def file_constants(src):
+    """enumerators and integral constants of a file -> value"""
+    tab = {}
+    for m in re.finditer(r"\benum\b[^{;]*\{([^}]*)\}", src):
+        v = -1
+        for item in split_args(m.group(1)):
+            mm = re.match(r"^(\w+)\s*(?:=\s*(-?\w+))?$", item.strip())
+            if not mm:
+                continue
+            if mm.group(2) is not None:
+                try:
+                    v = int(mm.group(2), 0)
+                except ValueError:
+                    if mm.group(2) in tab:
+                        v = int(tab[mm.group(2)])
+                    else:
+                        continue
+            else:
+                v += 1
+            tab[mm.group(1)] = str(v)
+    for m in re.finditer(r"\b(?:static\s+)?const\s+(?:unsigned\s+)?(?:int|long|size_t)\s+(\w+)\s*=\s*(-?\d+)\s*;", src):
+        tab[m.group(1)] = m.group(2)
+    return tab
+
+
+def drop_proved_guards(node):
+    """`b[k] = e; it = b.find(k); if (it == b.end()) {...}` -> the `if` is dropped (operator[] has inserted k)"""
+    if node is None:
+        return None
+    k = node[0]
+    if k == "block":
+        out = []
+        for n in node[1]:
+            n = drop_proved_guards(n)
+            if n[0] == "if" and n[3] is None and len(out) >= 2 and out[-1][0] == out[-2][0] == "simple":
+                a = re.match(r"^(\w+)\[(\w+)\]=.+$", out[-2][1])
+                f = re.match(r"^(\w+)=(\w+)\.find\((\w+)\)$", out[-1][1])
+                if a and f and f.group(2) == a.group(1) and f.group(3) == a.group(2) and \
+                        n[1] in (f"{f.group(1)}=={a.group(1)}.end()", f"{a.group(1)}.end()=={f.group(1)}"):
+                    continue
+            out.append(n)
+        return ("block", out)
+    if k == "if":
+        return ("if", node[1], drop_proved_guards(node[2]), drop_proved_guards(node[3]))
+    if k == "loop":
+        return ("loop", node[1], node[2], drop_proved_guards(node[3]))
+    if k == "switch":
+        return ("switch", node[1], drop_proved_guards(node[2]))
+    return node
+
+
+DECL = re.compile(r"^(?:typename )?[\w:<>,*& ]+ \*?\w+$")
+
+
+def ser(node):
+    """canonical serialisation of what a body does: declarations without initialiser dropped, `return(x)` = `return x`"""
+    if node is None:
+        return ""
+    k = node[0]
+    if k == "block":
+        return "{" + "".join(ser(n) for n in node[1]) + "}"
+    if k == "if":
+        return f"if({node[1]})" + ser(("block", stmts(node[2]))) + (("else" + ser(("block", stmts(node[3])))) if node[3] else "")
+    if k == "loop":
+        return f"{node[1]}({node[2]})" + ser(("block", stmts(node[3])))
+    if k == "switch":
+        return f"switch({node[1]})" + ser(node[2])
+    if k == "label":
+        return f"case {node[1]}:"
+    t = node[1]
+    if DECL.match(t) and "=" not in t and "(" not in t and not t.startswith("return"):
+        return ""
+    t = re.sub(r"^return\((.*)\)$", r"return \1", t)
+    return t + ";"
+
+
+def switch_groups(sw, consts, what):
+    """[(labels, [statements])] of a switch; labels resolved through the file constants; order of groups/labels irrelevant.
+    A group ends at break/return; statements followed directly by another label without break (fall-through with code) are
+    not accepted."""
+    groups, labels, body = [], [], []
+    for n in stmts(sw[2]):
+        if n[0] == "label":
+            if body:
+                raise TranslatorError(f"{what}: fall-through with statements before 'case {n[1]}'")
+            labels.append(consts.get(n[1], n[1]))
+            continue
+        if n[0] == "simple" and n[1] == "break":
+            groups.append((labels, body))
+            labels, body = [], []
+            continue
+        body.append(n)
+        if n[0] == "simple" and n[1].startswith("return"):
+            groups.append((labels, body))
+            labels, body = [], []
+    if labels or body:
+        groups.append((labels, body))
+    return groups
 
 
 def kinds(names, what):
@@ -59,36 +456,276 @@ def kinds(names, what):
     return out
 
 
+# ------------------------------------------------------------------------------------------------ the facts
 SIM_CALLS = ["read_input", "tidy_model", "initial_solutions", "initial_exchangers", "initial_surfaces", "initial_gas_phases",
              "reactions", "inverse_models", "advection", "transport", "run_as_cells", "do_mixes", "copy_entities",
              "dump_entities", "dump_ostream", "delete_entities"]
 
 
-def sim_calls(body, prefix, what):
-    """the store-relevant calls of the simulation loop, in source order (dump_entities/dump_ostream → one "dump")"""
+def sim_calls(body, what):
+    """the store-relevant calls of the simulation loop in execution (= source) order; dump_entities/dump_ostream -> "dump";
+    copy_entities must be guarded by new_copy"""
     calls = []
-    for m in re.finditer(prefix + r"(\w+)\s*\(", body):
-        n = m.group(1)
-        if n in SIM_CALLS:
-            n = "dump" if n.startswith("dump_") else n
-            if not (calls and calls[-1] == n == "dump"):
-                calls.append(n)
+    for t in texts(body):
+        for m in re.finditer(r"(?:PhreeqcPtr->|(?<![\w.>]))(\w+)\(", t):
+            n = m.group(1)
+            if n in SIM_CALLS:
+                n = "dump" if n.startswith("dump_") else n
+                if not (calls and calls[-1] == n == "dump"):
+                    calls.append(n)
     if calls.count("read_input") != 1 or calls[0] != "read_input":
         raise TranslatorError(f"{what}: read_input is not the first call of the loop: {calls}")
     for n in ("tidy_model", "reactions", "run_as_cells", "do_mixes", "copy_entities", "dump", "delete_entities"):
         if calls.count(n) != 1:
             raise TranslatorError(f"{what}: expected exactly one call of {n}: {calls}")
+    ok = any(n[0] == "if" and re.fullmatch(r"(this->PhreeqcPtr->)?new_copy", n[1]) and
+             [re.sub(r"this->PhreeqcPtr->", "", x[1]) for x in stmts(n[2])] == ["copy_entities()"] for n in walk(body))
+    if not ok:
+        raise TranslatorError(f"{what}: copy_entities is no longer guarded by new_copy")
     return calls
 
 
 def vopts_of(src, what):
-    m = re.search(r"temp_vopts\[\]\s*=\s*\{(.*?)\};", src, re.S)
+    m = re.search(r"temp_vopts\s*\[\s*\]\s*=\s*\{(.*?)\}\s*;", src, re.S)
     if not m:
         raise TranslatorError(f"{what}: temp_vopts not found")
-    v = re.findall(r'value_type\("([^"]*)"\)', m.group(1))
+    v = re.findall(r'value_type\s*\(\s*"([^"]*)"\s*\)', m.group(1))
     if not v:
         raise TranslatorError(f"{what}: empty option vector")
     return v
+
+
+def saver_facts(body):
+    sv = []
+    for n in stmts(body):
+        if n[0] != "if":
+            continue
+        m = re.match(r"^save\.(\w+)==TRUE(.*)$", n[1])
+        if not m or m.group(1) == "kinetics":
+            continue
+        t = alltext(n[2])
+        c = re.findall(r"Utilities::Rxn_copies\(Rxn_(\w+)_map", t)
+        e = re.findall(r"Utilities::Rxn_copy\(Rxn_(\w+)_map", t)
+        if m.group(2) or len(c) + len(e) != 1 or not re.search(r"x\w+_save\(n\)", t):
+            raise TranslatorError(f"saver: block of {m.group(1)} not recognised")
+        if e:       # the Rxn_copy loop runs over n+1 … n_end, copying from n
+            k = m.group(1)
+            loop = [x for x in walk(n[2]) if x[0] == "loop"]
+            if len(loop) != 1 or not re.fullmatch(rf"i=save\.n_{k}_user\+1;i<=save\.n_{k}_user_end;i\+\+", loop[0][2]) or \
+                    [x[1] for x in stmts(loop[0][3])] != [f"Utilities::Rxn_copy(Rxn_{k}_map,n,i)"]:
+                raise TranslatorError(f"saver: Rxn_copy loop of {k} not recognised")
+        sv.append((MAPNAME[(c + e)[0]], bool(c)))
+    if [k for k, _ in sv] != ["solution", "pp", "exchange", "surface", "gas", "ss"]:
+        raise TranslatorError(f"saver: kinds {sv}")
+    return sv
+
+
+def copy_entities_facts(body):
+    """[(kind, loop variable type)] in order: per COPY list one loop over its instructions; inside: nothing unless the source
+    exists; every number start…end except the source number receives Rxn_copy(map, source, number); then the list is cleared"""
+    out, cleared = [], []
+    top = stmts(body)
+    for n in top:
+        if n[0] == "simple":
+            m = re.fullmatch(r"copier_clear\(&copy_(\w+)\)", n[1])
+            if m:
+                cleared.append(m.group(1))
+            continue
+        if n[0] != "loop":
+            continue
+        m = re.fullmatch(r"size_t j=0;j<copy_(\w+)\.n_user\.size\(\);j\+\+", n[2])
+        if not m:
+            raise TranslatorError(f"copy_entities: outer loop header {n[2]!r}")
+        K = m.group(1)
+        src_ = rf"copy_{K}\.n_user\[j\]"
+        find = rf"(?:Utilities::)?Rxn_find\(Rxn_{K}_map,{src_}\)"
+        exists, inner = False, None
+        for st in stmts(n[3]):
+            if st[0] == "if" and re.fullmatch(find + r"!=NULL", st[1]) and st[3] is None:
+                inn = [x for x in stmts(st[2])]
+                if len(inn) == 1 and inn[0][0] == "loop":
+                    exists, inner = True, inn[0]
+                    continue
+            if st[0] == "if" and re.fullmatch(find + r"==NULL", st[1]) and st[3] is None and \
+                    [x[1] for x in stmts(st[2])] == ["continue"] and inner is None:
+                exists = True
+                continue
+            if st[0] == "loop" and exists and inner is None:
+                inner = st
+                continue
+            raise TranslatorError(f"copy_entities: statement in the loop of {K} not recognised: {ser(st)[:120]}")
+        if not exists or inner is None:
+            raise TranslatorError(f"copy_entities: existence test / range loop of {K} missing")
+        m = re.fullmatch(rf"(\w+) i=copy_{K}\.start\[j\];i<=copy_{K}\.end\[j\];(?:i\+\+|\+\+i)", inner[2])
+        if not m:
+            raise TranslatorError(f"copy_entities: range loop of {K}: {inner[2]!r}")
+        T = m.group(1)
+        copy = rf"Utilities::Rxn_copy\(Rxn_{K}_map,{src_},(?:\(int\))?i\)"
+        ib = stmts(inner[3])
+        skip_then_copy = (len(ib) == 2 and ib[0][0] == "if" and re.fullmatch(rf"i=={src_}", ib[0][1]) and ib[0][3] is None and
+                          [x[1] for x in stmts(ib[0][2])] == ["continue"] and ib[1][0] == "simple" and re.fullmatch(copy, ib[1][1]))
+        copy_if_other = (len(ib) == 1 and ib[0][0] == "if" and re.fullmatch(rf"i!={src_}", ib[0][1]) and ib[0][3] is None and
+                         len(stmts(ib[0][2])) == 1 and stmts(ib[0][2])[0][0] == "simple" and
+                         re.fullmatch(copy, stmts(ib[0][2])[0][1]))
+        if not (skip_then_copy or copy_if_other):
+            raise TranslatorError(f"copy_entities: body of the range loop of {K} not recognised: {ser(inner[3])[:160]}")
+        out.append((K, T))
+    if [k for k, _ in out] != cleared[:len(out)] or len(out) != 11:
+        raise TranslatorError(f"copy_entities: loops {[k for k, _ in out]} / cleared lists {cleared}")
+    if not any(n[0] == "simple" and n[1] == "new_copy=FALSE" for n in top):
+        raise TranslatorError("copy_entities: new_copy is not reset")
+    types = {t for _, t in out}
+    if len(types) != 1 or types - {"size_t", "int"}:
+        raise TranslatorError(f"copy_entities: loop variable types {types}")
+    return kinds([k for k, _ in out], "copy_entities"), ("sizet" if types == {"size_t"} else "int")
+
+
+def delete_entities_facts(body):
+    """kinds in order; per kind: if the item is defined: no numbers -> map.clear(), else map.erase(n) for every listed n;
+    only the item's own map is touched; afterwards every item is reset"""
+    out = []
+    top = stmts(body)
+    for n in top:
+        if n[0] != "if":
+            continue
+        m = re.fullmatch(r"delete_info\.Get_(\w+)\(\)\.Get_defined\(\)", n[1])
+        if not m:
+            continue
+        K = m.group(1)
+        t = alltext(n[2])
+        if set(re.findall(r"Rxn_(\w+)_map", t)) != {K} or set(re.findall(r"delete_info\.Get_(\w+)\(\)", t)) != {K}:
+            raise TranslatorError(f"delete_entities: block of {K} touches other maps or items")
+        inner = [x for x in stmts(n[2]) if x[0] != "simple" or not DECL.match(x[1])]
+        nums = rf"delete_info\.Get_{K}\(\)\.Get_numbers\(\)"
+        if len(inner) != 1 or inner[0][0] != "if" or not re.fullmatch(nums + r"\.size\(\)==0", inner[0][1]) or inner[0][3] is None:
+            raise TranslatorError(f"delete_entities: block of {K}: 'no numbers' test not recognised")
+        if [x[1] for x in stmts(inner[0][2])] != [f"Rxn_{K}_map.clear()"]:
+            raise TranslatorError(f"delete_entities: {K}: clear branch")
+        els = [x for x in stmts(inner[0][3]) if not (x[0] == "simple" and DECL.match(x[1]) and "=" not in x[1])]
+        if len(els) != 1 or els[0][0] != "loop":
+            raise TranslatorError(f"delete_entities: {K}: erase loop not found")
+        hm = re.fullmatch(rf"(?:[\w:<> ]+ )?(\w+)={nums}\.begin\(\);(\w+)!={nums}\.end\(\);(?:(\w+)\+\+|\+\+(\w+))", els[0][2])
+        if not hm or len({hm.group(1), hm.group(2), hm.group(3) or hm.group(4)}) != 1:
+            raise TranslatorError(f"delete_entities: {K}: loop header {els[0][2]!r}")
+        if [x[1] for x in stmts(els[0][3])] != [f"Rxn_{K}_map.erase(*{hm.group(1)})"]:
+            raise TranslatorError(f"delete_entities: {K}: loop body")
+        out.append(K)
+    if "delete_info.SetAll(false)" not in [x[1] for x in top if x[0] == "simple"]:
+        raise TranslatorError("delete_entities: the request is not reset (SetAll(false))")
+    return kinds(out, "delete_entities")
+
+
+RXN_COPY = ("{it=b.find(i);if(it!=b.end()){b[j]=it->second;it=b.find(j);it->second.Set_n_user(j);it->second.Set_n_user_end(j);"
+            "return&(it->second);}else{return NULL;}}")
+RXN_COPIES = ("{if(n_user_end<=n_user){return;}it=b.find(n_user);if(it!=b.end()){for(int j=n_user+1;j<=n_user_end;j++)"
+              "{b[j]=it->second;it=b.find(j);it->second.Set_n_user(j);it->second.Set_n_user_end(j);}}}")
+
+
+def rxn_shapes(hdr):
+    for name, want in (("Rxn_copy", RXN_COPY), ("Rxn_copies", RXN_COPIES)):
+        _, body = function_def(hdr, name)
+        got = ser(drop_proved_guards(body))
+        got = got.replace("return (NULL);", "return NULL;")
+        if got != want:
+            raise TranslatorError(f"{name}: does not say what the model assumes:\n  {got}\n  {want}")
+
+
+def item_switch(fn_body, consts, item_rx, what):
+    """{option index: item} from the switch whose groups assign `item`"""
+    for sw in (n for n in walk(fn_body) if n[0] == "switch" and n[1] == "opt"):
+        gs = switch_groups(sw, consts, what)
+        if not any(any(x[0] == "simple" and x[1].startswith("item=") for x in b) for _, b in gs):
+            continue
+        cases = {}
+        for labels, b in gs:
+            if labels == ["default"]:
+                if b:
+                    raise TranslatorError(f"{what}: default case of the item switch does something")
+                continue
+            if len(b) != 1 or b[0][0] != "simple":
+                raise TranslatorError(f"{what}: item switch group {labels}: {[ser(x) for x in b]}")
+            m = re.fullmatch(item_rx, b[0][1])
+            if not m:
+                raise TranslatorError(f"{what}: item switch group {labels}: {b[0][1]!r}")
+            for lb in labels:
+                if not re.fullmatch(r"\d+", lb) or int(lb) in cases:
+                    raise TranslatorError(f"{what}: case label {lb!r}")
+                cases[int(lb)] = m.group(1) if m.lastindex else "cell"
+        return cases
+    raise TranslatorError(f"{what}: item switch not found")
+
+
+def all_case(fn_body, consts, what):
+    for sw in (n for n in walk(fn_body) if n[0] == "switch" and n[1] == "opt"):
+        for labels, b in switch_groups(sw, consts, what):
+            if [x[1] for x in b if x[0] == "simple"] == ["this->SetAll(true)"] and len(b) == 1:
+                if len(labels) != 1 or not re.fullmatch(r"\d+", labels[0]):
+                    raise TranslatorError(f"{what}: -all case labels {labels}")
+                return int(labels[0])
+    raise TranslatorError(f"{what}: -all case not found")
+
+
+def storage_bin_facts(sb):
+    consts = file_constants(sb)
+    vopts = vopts_of(sb, "StorageBinList")
+    _, rd = function_def(sb, "StorageBinList::Read")
+    cases = {k: MAPNAME[v] for k, v in item_switch(rd, consts, r"item=&\(this->Get_(\w+)\(\)\)", "StorageBinList::Read").items()}
+    cases[all_case(rd, consts, "StorageBinList::Read")] = "all"
+    if sorted(cases) != list(range(len(vopts))):
+        raise TranslatorError(f"StorageBinList::Read: cases {sorted(cases)} do not cover the {len(vopts)} options")
+    top = stmts(rd)
+    first_loop = next((i for i, n in enumerate(top) if n[0] == "loop"), None)
+    if first_loop is None:
+        raise TranslatorError("StorageBinList::Read: option loop not found")
+    before = [n[1] for n in top[:first_loop] if n[0] == "simple"]
+    if "this->cell.Clear()" not in before or "this->cell.Set_defined(false)" not in before:
+        raise TranslatorError("StorageBinList::Read: the cell list is no longer cleared at the start of a block")
+    # which options are followed by numbers: everything but -all
+    loop = top[first_loop]
+    reads = None
+    for n in stmts(loop[3]):
+        if n[0] == "if" and re.search(r"\bopt\b", n[1]) and "Augment" in alltext(n[2]):
+            cond = re.sub(r"\b(\w+)\b", lambda m: consts.get(m.group(1), m.group(1)), n[1])
+            if not re.fullmatch(r"[\dopt()<>=&|! ]+", cond):
+                raise TranslatorError(f"StorageBinList::Read: numbers condition {cond!r}")
+            py = cond.replace("&&", " and ").replace("||", " or ").replace("!", " not ").replace(" not =", "!=")
+            reads = {i for i in range(len(vopts)) if eval(py, {"opt": i})}
+    if reads != {i for i in range(len(vopts)) if cases[i] != "all"}:
+        raise TranslatorError(f"StorageBinList::Read: options followed by numbers: {reads}")
+    after = [n for n in top[first_loop + 1:] if n[0] == "if" and n[1] == "this->Get_cell().Get_defined()"]
+    if len(after) != 1 or ser(("block", stmts(after[0][2]))) != \
+            "{if(this->Get_cell().Get_numbers().empty()){this->SetAll(true);}else{this->TransferAll(this->Get_cell());}}":
+        raise TranslatorError("StorageBinList::Read: the cell list is not transferred at the end of the block as assumed")
+    _, ga = function_def(sb, "StorageBinList::GetAllItems")
+    items = sorted(re.findall(r"items\.insert\(&this->(\w+)\)", alltext(ga)))
+    if items != ELEVEN:
+        raise TranslatorError(f"StorageBinList::GetAllItems: {items}")
+    _, ta = function_def(sb, "StorageBinList::TransferAll")
+    if not re.search(r"\(\*item\)->Augment\(\*it\)", alltext(ta)) or len([n for n in walk(ta) if n[0] == "loop"]) != 2:
+        raise TranslatorError("StorageBinList::TransferAll not recognised")
+    _, sa = function_def(sb, "StorageBinList::SetAll")
+    if not {"(*it)->Clear()", "(*it)->Set_defined(tf)"} <= set(texts(sa)):
+        raise TranslatorError("StorageBinList::SetAll not recognised")
+    return vopts, [cases[i] for i in range(len(vopts))]
+
+
+def key_cases(fn_body, stmt_rx, what):
+    """[(KEY_x, captured name)] from every switch group of the function that contains a statement matching stmt_rx"""
+    out = []
+    for sw in (n for n in walk(fn_body) if n[0] == "switch"):
+        try:
+            gs = switch_groups(sw, {}, what)
+        except TranslatorError:
+            continue
+        for labels, b in gs:
+            hits = [m.group(1) for x in b if x[0] == "simple" for m in [re.fullmatch(stmt_rx, x[1])] if m]
+            if len(hits) == 1:
+                for lb in labels:
+                    m = re.fullmatch(r"Keywords::(KEY_\w+)", lb)
+                    if not m:
+                        raise TranslatorError(f"{what}: label {lb!r}")
+                    out.append((m.group(1), hits[0], b))
+    return out
 
 
 def extract(repo=None):
@@ -96,130 +733,57 @@ def extract(repo=None):
     pp = repo / "src" / "phreeqcpp"
     facts = {}
     ip = strip_comments((repo / "src" / "IPhreeqc.cpp").read_text())
-    facts["do_run"] = sim_calls(body_of(ip, r"void\s+IPhreeqc::do_run\s*\(", "do_run"), r"PhreeqcPtr->", "do_run")
+    facts["do_run"] = sim_calls(function_def(ip, "IPhreeqc::do_run")[1], "do_run")
     ms = strip_comments((pp / "mainsubs.cpp").read_text())
-    facts["run_simulations"] = sim_calls(body_of(ms, r"\nrun_simulations\s*\(void\)", "run_simulations"), r"\b", "run_simulations")
-    # copy_entities guarded by new_copy in both drivers
-    for name, txt in (("do_run", ip), ("run_simulations", ms)):
-        if not re.search(r"if\s*\((?:this->PhreeqcPtr->)?new_copy\)\s*(?:this->PhreeqcPtr->)?copy_entities\(\)", txt):
-            raise TranslatorError(f"{name}: copy_entities is no longer guarded by new_copy")
-    b = body_of(ms, r"\nset_use\s*\(void\)", "set_use")
-    facts["set_use"] = kinds(re.findall(r"Rxn_find\(Rxn_(\w+)_map", b), "set_use")
-    b = body_of(ms, r"\ncopy_use\s*\(int i\)", "copy_use")
-    facts["copy_use"] = kinds(re.findall(r"Rxn_copy\(Rxn_(\w+)_map", b), "copy_use")
-    if not re.search(r"save\.solution\s*=\s*TRUE;\s*save\.n_solution_user\s*=\s*i;", b):
+
+    def fn(name):
+        _, b = function_def(ms, name)
+        return resolve_aliases(inline_helpers(b, ms, name))
+    facts["run_simulations"] = sim_calls(fn("run_simulations"), "run_simulations")
+    b = fn("set_use")
+    facts["set_use"] = kinds(re.findall(r"Rxn_find\(Rxn_(\w+)_map", alltext(b)), "set_use")
+    b = fn("copy_use")
+    facts["copy_use"] = kinds(re.findall(r"Rxn_copy\(Rxn_(\w+)_map", alltext(b)), "copy_use")
+    if not re.search(r"save\.solution=TRUE;save\.n_solution_user=i;", alltext(b) + ";"):
         raise TranslatorError("copy_use: 'always save solution to i' not recognised")
-    b = body_of(ms, r"\nsaver\s*\(void\)", "saver")
-    sv = []
-    for m in re.finditer(r"if \(save\.(\w+) == TRUE(.*?)\n\t\}", b, re.S):
-        k = m.group(1)
-        if k == "kinetics":
-            continue
-        blk = m.group(2)
-        c = re.findall(r"Utilities::Rxn_copies\(Rxn_(\w+)_map", blk)
-        e = re.findall(r"Utilities::Rxn_copy\(Rxn_(\w+)_map", blk)
-        if len(c) + len(e) != 1 or not re.search(r"x\w+_save\(n\)", blk):
-            raise TranslatorError(f"saver: block of {k} not recognised")
-        sv.append((MAPNAME[(c + e)[0]], bool(c)))
-    if [k for k, _ in sv] != ["solution", "pp", "exchange", "surface", "gas", "ss"]:
-        raise TranslatorError(f"saver: kinds {sv}")
-    facts["saver"] = sv
-    b = body_of(ms, r"\nPhreeqc::do_mixes\s*\(void\)", "do_mixes")
-    facts["do_mixes"] = kinds(re.findall(r"Rxn_mix\(Rxn_\w+_mix_map,\s*Rxn_(\w+)_map", b), "do_mixes")
-    b = body_of(ms, r"\ncopy_entities\s*\(void\)", "copy_entities")
-    loops = re.findall(r"for \((\w+) i = copy_(\w+)\.start\[j\]; i <= copy_\w+\.end\[j\]; i\+\+\)", b)
-    types = {t for t, _ in loops}
-    if len(loops) != 11 or len(types) != 1 or types - {"size_t", "int"}:
-        raise TranslatorError(f"copy_entities loops not recognised: {loops}")
-    facts["copy_entities"] = kinds([k for _, k in loops], "copy_entities")
-    facts["copy_loop"] = "sizet" if types == {"size_t"} else "int"
-    if len(re.findall(r"continue;|if \(i != copy_\w+\.n_user\[j\]\)", b)) != 11:
-        raise TranslatorError("copy_entities: the 'skip the source number' test is not in all 11 loops")
+    facts["saver"] = saver_facts(fn("saver"))
+    facts["do_mixes"] = kinds(re.findall(r"Rxn_mix\(Rxn_\w+_mix_map,Rxn_(\w+)_map", alltext(fn("do_mixes"))), "do_mixes")
+    facts["copy_entities"], facts["copy_loop"] = copy_entities_facts(fn("copy_entities"))
     rc = strip_comments((pp / "ReadClass.cxx").read_text())
-    b = body_of(rc, r"\ndelete_entities\s*\(void\)", "delete_entities")
-    cl = re.findall(r"Rxn_(\w+)_map\.clear\(\)", b)
-    er = re.findall(r"Rxn_(\w+)_map\.erase\(\*it\)", b)
-    if cl != er:
-        raise TranslatorError(f"delete_entities: clear() and erase() orders differ: {cl} vs {er}")
-    # each block must test its own item and act on its own map
-    for m in re.finditer(r"if \(delete_info\.Get_(\w+)\(\)\.Get_defined\(\)\)\s*\{(.*?)\n\t\}", b, re.S):
-        maps = set(re.findall(r"Rxn_(\w+)_map", m.group(2)))
-        items = set(re.findall(r"delete_info\.Get_(\w+)\(\)", m.group(2)))
-        if maps != {m.group(1)} or items != {m.group(1)}:
-            raise TranslatorError(f"delete_entities: block of {m.group(1)} touches {maps} / {items}")
-    facts["delete_entities"] = kinds(cl, "delete_entities")
-    b = body_of(rc, r"\ndump_ostream\s*\(std::ostream", "dump_ostream")
-    facts["dump_ostream"] = kinds(re.findall(r"Rxn_dump_raw\(Rxn_(\w+)_map", b), "dump_ostream")
-    for m in re.finditer(r"if \(dump_info\.Get_bool_(\w+)\(\)\)\s*\{(.*?)\n\t\}", b, re.S):
-        maps = set(re.findall(r"Rxn_(\w+)_map", m.group(2)))
-        if maps != {m.group(1)}:
-            raise TranslatorError(f"dump_ostream: block of {m.group(1)} touches {maps}")
+    facts["delete_entities"] = delete_entities_facts(resolve_aliases(inline_helpers(function_def(rc, "delete_entities")[1], rc,
+                                                                                    "delete_entities")))
+    b = resolve_aliases(function_def(rc, "dump_ostream")[1])
+    facts["dump_ostream"] = kinds(re.findall(r"Rxn_dump_raw\(Rxn_(\w+)_map", alltext(b)), "dump_ostream")
+    for n in stmts(b):
+        m = re.fullmatch(r"dump_info\.Get_bool_(\w+)\(\)", n[1]) if n[0] == "if" else None
+        if m and set(re.findall(r"Rxn_(\w+)_map", alltext(n[2]))) != {m.group(1)}:
+            raise TranslatorError(f"dump_ostream: block of {m.group(1)} touches another map")
     ph = strip_comments((pp / "Phreeqc.cpp").read_text())
-    b = body_of(ph, r"size_t\s+Phreeqc::list_components\s*\(", "list_components")
-    facts["list_components"] = kinds(re.findall(r"cit = Rxn_(\w+)_map\.begin\(\)|it = Rxn_(kinetics)_map\.begin\(\)", b) and
-                                     [a or c for a, c in re.findall(r"cit = Rxn_(\w+)_map\.begin\(\)|it = Rxn_(kinetics)_map\.begin\(\)", b)],
-                                     "list_components")
-    hdr = strip_comments((pp / "Phreeqc.h").read_text())
-    if not re.search(r"void Rxn_copies\(.*?if \(n_user_end <= n_user\) return;.*?for \(int j = n_user \+ 1; j <= n_user_end; j\+\+\)\s*\{\s*"
-                     r"b\[j\] = it->second;\s*it = b\.find\(j\);", hdr, re.S):
-        raise TranslatorError("Rxn_copies loop shape not recognised")
+    b = function_def(ph, "Phreeqc::list_components")[1]
+    facts["list_components"] = kinds(re.findall(r"\w+=Rxn_(\w+)_map\.begin\(\)", alltext(b)), "list_components")
+    rxn_shapes(strip_comments((pp / "Phreeqc.h").read_text()))
     # option tables
     sb = strip_comments((pp / "StorageBinList.cpp").read_text())
-    facts["bin_vopts"] = vopts_of(sb, "StorageBinList")
-    rd = body_of(sb, r"bool\s+StorageBinList::Read\s*\(", "StorageBinList::Read")
-    sw = re.search(r"StorageBinListItem \*item = NULL;\s*switch \(opt\)\s*\{(.*?)\n\t\t\}", rd, re.S)
-    if not sw:
-        raise TranslatorError("StorageBinList::Read: item switch not found")
-    cases, pend = {}, []
-    for ln in sw.group(1).splitlines():
-        m = re.match(r"\s*case (\d+):", ln)
-        if m:
-            pend.append(int(m.group(1)))
-        m = re.match(r"\s*item = &\(this->Get_(\w+)\(\)\);", ln)
-        if m:
-            for c in pend:
-                cases[c] = MAPNAME[m.group(1)]
-            pend = []
-    m = re.search(r"case (\d+):\s*this->SetAll\(true\);", rd)
-    if not m:
-        raise TranslatorError("StorageBinList::Read: -all case not found")
-    cases[int(m.group(1))] = "all"
-    if sorted(cases) != list(range(len(facts["bin_vopts"]))):
-        raise TranslatorError(f"StorageBinList::Read: cases {sorted(cases)} do not cover the {len(facts['bin_vopts'])} options")
-    facts["bin_cases"] = [cases[i] for i in range(len(facts["bin_vopts"]))]
-    if not re.search(r"this->cell\.Clear\(\);\s*this->cell\.Set_defined\(false\);\s*for \(;;\)", rd):
-        raise TranslatorError("StorageBinList::Read: the cell list is no longer cleared at the start of a block")
+    facts["bin_vopts"], facts["bin_cases"] = storage_bin_facts(sb)
     rn = strip_comments((pp / "runner.cpp").read_text())
     facts["runner_vopts"] = vopts_of(rn, "runner")
-    rr = body_of(rn, r"bool\s+runner::Read\s*\(", "runner::Read")
-    m = re.search(r"((?:case \d+:\s*)+)for \(;;\)", rr)
-    if not m:
+    rr = function_def(rn, "runner::Read")[1]
+    cells = []
+    for sw in (n for n in walk(rr) if n[0] == "switch" and n[1] == "opt"):
+        for labels, bb in switch_groups(sw, file_constants(rn), "runner::Read"):
+            if "item.Augment(token)" in alltext(("block", bb)):
+                cells += [int(x) for x in labels if re.fullmatch(r"\d+", x)]
+    if not cells:
         raise TranslatorError("runner::Read: cell cases not found")
-    facts["runner_cell_cases"] = [int(x) for x in re.findall(r"case (\d+):", m.group(1))]
+    facts["runner_cell_cases"] = sorted(cells)
     dm = strip_comments((pp / "dumper.cpp").read_text())
     facts["dumper_vopts"] = vopts_of(dm, "dumper")
-    dr = body_of(dm, r"bool\s+dumper::Read\s*\(", "dumper::Read")
-    m = re.search(r"case (\d+):\s*this->SetAll\(true\);", dr)
-    if not m:
-        raise TranslatorError("dumper::Read: -all case not found")
-    facts["dumper_all_case"] = int(m.group(1))
-    sw = re.search(r"StorageBinListItem \*item = NULL;\s*switch \(opt\)\s*\{(.*?)\n\t\t\}", dr, re.S)
-    if not sw:
-        raise TranslatorError("dumper::Read: item switch not found")
-    dc, pend = {0: "file", 1: "append", facts["dumper_all_case"]: "all"}, []
-    for ln in sw.group(1).splitlines():
-        mm = re.match(r"\s*case (\d+):", ln)
-        if mm:
-            pend.append(int(mm.group(1)))
-        mm = re.match(r"\s*item = &\(this->binList\.Get_(\w+)\(\)\);", ln)
-        if mm:
-            for c in pend:
-                dc[c] = MAPNAME[mm.group(1)]
-            pend = []
-        if re.match(r"\s*item = &cells;", ln):
-            for c in pend:
-                dc[c] = "cell"
-            pend = []
+    dr = function_def(dm, "dumper::Read")[1]
+    dconst = file_constants(dm)
+    facts["dumper_all_case"] = all_case(dr, dconst, "dumper::Read")
+    dc = {0: "file", 1: "append", facts["dumper_all_case"]: "all"}
+    for k, v in item_switch(dr, dconst, r"item=&(?:\(this->binList\.Get_(\w+)\(\)\)|cells)", "dumper::Read").items():
+        dc[k] = MAPNAME[v] if v in MAPNAME else "cell"
     if sorted(dc) != list(range(len(facts["dumper_vopts"]))):
         raise TranslatorError(f"dumper::Read: cases {sorted(dc)} do not cover the {len(facts['dumper_vopts'])} options")
     facts["dumper_cases"] = [dc[i] for i in range(len(facts["dumper_vopts"]))]
@@ -228,23 +792,32 @@ def extract(repo=None):
     usemap = {"solution": "solution", "pp_assemblage": "pp", "reaction": "reaction", "mix": "mix", "exchange": "exchange",
               "surface": "surface", "temperature": "temperature", "pressure": "pressure", "gas_phase": "gas",
               "kinetics": "kinetics", "ss_assemblage": "ss"}
-    b = body_of(rd, r"\nread_use\s*\(void\)", "read_use")
-    uk = re.findall(r"case Keywords::(KEY_\w+):\s*use\.Set_n_(\w+)_user\(n_user\);", b)
+    uk = key_cases(function_def(rd, "read_use")[1], r"use\.Set_n_(\w+)_user\(n_user\)", "read_use")
     if len(uk) != 11:
         raise TranslatorError(f"read_use: {len(uk)} cases recognised")
-    facts["use_keys"] = [(k, usemap[m]) for k, m in uk]
-    b = body_of(rd, r"\nread_save\s*\(void\)", "read_save")
-    sk = re.findall(r"case Keywords::(KEY_\w+):\s*save\.(\w+) = TRUE;\s*save\.n_(\w+)_user = n_user;\s*save\.n_(\w+)_user_end = n_user_end;", b)
-    if len(sk) != 6 or any(len({a, b_, c}) != 1 for _, a, b_, c in sk):
-        raise TranslatorError(f"read_save: cases not recognised: {sk}")
-    facts["save_keys"] = [(k, usemap[m]) for k, m, _, _ in sk]
-    b = body_of(rd, r"\nread_copy\s*\(void\)", "read_copy")
-    ck = re.findall(r"case Keywords::(KEY_\w+):\s*copier_add\(&copy_(\w+), n_user, n_user_start, n_user_end\);\s*break;", b)
+    facts["use_keys"] = [(k, usemap[m]) for k, m, _ in uk]
+    sk = key_cases(function_def(rd, "read_save")[1], r"save\.(\w+)=TRUE", "read_save")
+    for k, m, b in sk:
+        if sorted(x[1] for x in b if x[0] == "simple") != sorted([f"save.{m}=TRUE", f"save.n_{m}_user=n_user",
+                                                                  f"save.n_{m}_user_end=n_user_end"]):
+            raise TranslatorError(f"read_save: case {k} not recognised")
+    if len(sk) != 6:
+        raise TranslatorError(f"read_save: {len(sk)} cases recognised")
+    facts["save_keys"] = [(k, usemap[m]) for k, m, _ in sk]
+    rcopy = function_def(rd, "read_copy")[1]
+    ck = key_cases(rcopy, r"copier_add\(&copy_(\w+),n_user,n_user_start,n_user_end\)", "read_copy")
     if len(ck) != 11:
         raise TranslatorError(f"read_copy: {len(ck)} single-kind cases recognised")
-    facts["copy_keys"] = [(k, usemap[m]) for k, m in ck]
-    mcell = re.search(r"case Keywords::KEY_NONE:\s*str_tolower\(nonkeyword\);\s*if \(strstr\(nonkeyword, \"cell\"\) != nonkeyword\)(.*?)break;", b, re.S)
-    if not mcell or sorted(re.findall(r"copier_add\(&copy_(\w+), n_user, n_user_start, n_user_end\)", mcell.group(1))) != sorted(usemap):
+    facts["copy_keys"] = [(k, usemap[m]) for k, m, _ in ck]
+    cell_ok = False
+    for sw in (n for n in walk(rcopy) if n[0] == "switch"):
+        for labels, bb in switch_groups(sw, {}, "read_copy"):
+            if labels == ["Keywords::KEY_NONE"]:
+                adds = sorted(m.group(1) for x in bb if x[0] == "simple"
+                              for m in [re.fullmatch(r"copier_add\(&copy_(\w+),n_user,n_user_start,n_user_end\)", x[1])] if m)
+                if adds == sorted(usemap) and any(x[0] == "if" and x[1] == 'strstr(nonkeyword,"cell")!=nonkeyword' for x in bb):
+                    cell_ok = True
+    if not cell_ok:
         raise TranslatorError("read_copy: COPY cell does not add all eleven kinds")
     # what the generator writes
     from gens import store as G
@@ -290,4 +863,5 @@ def generate(ctx=None):
 
 if __name__ == "__main__":
     import json
-    print(json.dumps(generate(), indent=1))
+    import sys
+    print(json.dumps(extract(sys.argv[1]) if len(sys.argv) > 1 else generate(), indent=1))
